@@ -472,7 +472,7 @@ def run(prop, tier, seed, replay=None):
            and (r['drift'] or unlisted(r) or r['harness'])]
     if bad:
         ck.log('%d behaviours not clean on the first pass, re-running them serially: %s' % (len(bad), bad[:5]))
-        job2 = dict(job, schedules=[by_name[n] for n in bad[:30]], workers=1, wait_ms=2 * wait_ms)
+        job2 = dict(job, schedules=[by_name[n] for n in bad[:8]], workers=2, wait_ms=2 * wait_ms)
         again = harness(ck, job2, known, None, 'manual re-run')
         if again is None:
             join_all()
@@ -517,7 +517,7 @@ def run(prop, tier, seed, replay=None):
             badr = [r['name'] for r in results_r if r['harness'] != 'skipped' and (unlisted(r) or r['harness'])]
             if badr:
                 ck.log('%d real-loop behaviours not clean, re-running serially: %s' % (len(badr), badr[:5]))
-                again = harness(ck, dict(job_r, schedules=[by_r[n] for n in badr[:12]], workers=1, wait_ms=2 * wait_ms), known, None, 'real re-run')
+                again = harness(ck, dict(job_r, schedules=[by_r[n] for n in badr[:6]], workers=2, wait_ms=2 * wait_ms), known, None, 'real re-run')
                 if again is not None:
                     good = {r['name']: r for r in again}
                     results_r = [good.get(r['name'], r) for r in results_r]
